@@ -22,7 +22,7 @@ SCHEMA = [Opt("i", "int", 0, 7, "w"), Opt("s", "str", 0, b"d", "w"), Opt("f", "f
           Opt("n", "sec", MULTI, None, "-", [Opt("y", "int", 0, 4)]),
           # CFG_SIMPLE_*: the value is a variable of the caller's; a refused update leaves that variable alone too
           Opt("si", "int", 0, 5, "s"), Opt("ss", "str", 0, b"init", "s"), Opt("sf", "float", 0, 0.5, "s"), Opt("sb", "bool", 0, True, "s"),
-          Opt("sw", "int", 0, 6, "sw")]
+          Opt("sw", "int", 0, 6, "sw"), Opt("sp", "str", 0, b"init", "sp")]
 
 # state preparations per option
 def preps(maxn):
@@ -32,7 +32,7 @@ def preps(maxn):
                   "SM 0 %s %s %s %s" % (hx("fl"), hx("1"), hx("2"), hx("3")), "SM 0 %s %s" % (hx("bl"), hx("no")), "AT 0 %s %s" % (hx("m"), hx("a")),
                   "AT 0 %s %s" % (hx("m"), hx("b")), "SI 0 %s 0 2" % hx("one|w"),
                   "PB 0 " + hx(b"n { y = 1 } n { y = 2 } n { y = 3 }\n"),
-                  "SI 0 %s 0 8" % hx("si"), "PB 0 " + hx(b"ss = parsed sb = off\n"), "SF 0 %s 0 %s" % (hx("sf"), dbits(4.0))]
+                  "SI 0 %s 0 8" % hx("si"), "PB 0 " + hx(b"ss = parsed sb = off sp = word\n"), "SF 0 %s 0 %s" % (hx("sf"), dbits(4.0))]
     # a titled multi section whose FIRST instance has no title (cfg_setopt(cfg, opt, NULL) on the empty option):
     # lookups by title stop at it, the duplicate check of an add must not
     out["untitled_first"] = ["SO 0 %s -" % hx("m"), "AT 0 %s %s" % (hx("m"), hx("a")), "SI 0 %s 0 42" % hx("m='a'|x")]
@@ -65,6 +65,7 @@ def refusing(maxpos):
         ops.append(("setmulti_simple_int_bad@%d" % pos, "SM 0 %s %s" % (hx("si"), " ".join(vals[:pos + 1]))))
         ops.append(("setmulti_simple_float_bad@%d" % pos, "SM 0 %s %s" % (hx("sf"), " ".join(fv[:pos] + [hx("2.5.")]))))
         ops.append(("setmulti_simple_bool_bad@%d" % pos, "SM 0 %s %s" % (hx("sb"), " ".join(bv[:pos + 1]))))
+        ops.append(("setmulti_simple_str_cb_bad@%d" % pos, "SM 0 %s %s" % (hx("sp"), " ".join([hx("ok%d" % k) for k in range(pos)] + [hx("!refused")]))))
     ops += [("veto_int", "SI 0 %s 0 -4" % hx("i")), ("veto_int_list", "SI 0 %s 1 -4" % hx("l")), ("veto_str", "SS 0 %s 0 %s" % (hx("s"), hx("!no"))),
             ("wrong_type", "SI 0 %s 0 1" % hx("s")), ("wrong_type2", "SS 0 %s 0 %s" % (hx("i"), hx("q"))), ("wrong_type3", "SB 0 %s 0 1" % hx("l")),
             ("bad_index", "SI 0 %s 3 1" % hx("i")), ("bad_index_str", "SS 0 %s 1 %s" % (hx("s"), hx("q"))),
